@@ -698,6 +698,9 @@ impl Duration {
         provider: &impl TimeZoneProvider,
         // Review question what is the return type of duration.prototye.total?
     ) -> TemporalResult<FiniteF64> {
+        if unit == Unit::Auto {
+            return Err(TemporalError::range().with_message("auto is not a valid unit for total."));
+        }
         match relative_to {
             // 11. If zonedRelativeTo is not undefined, then
             Some(RelativeTo::ZonedDateTime(zoned_datetime)) => {
